@@ -13,6 +13,8 @@ import sys
 VERIF = os.path.dirname(os.path.dirname(os.path.abspath(__file__)))
 REPO = os.path.abspath(os.environ.get("VERIF_REPO", "/repo"))
 DEPS = os.path.join(VERIF, ".deps")
+if not os.path.isdir(DEPS) and os.path.isdir("/verif/.deps"):
+    DEPS = "/verif/.deps"  # background snapshots of /verif (vp run) do not carry the ignored .deps directory
 LOGGER_NAME = "be.kuleuven.cs.dtai.mapmatching"
 
 EXIT_OK, EXIT_VIOLATION, EXIT_HARNESS = 0, 1, 2
